@@ -24,7 +24,8 @@ def main():
 	seed = Path(sys.argv[1]).resolve()
 	pid = sys.argv[2]
 	run_all = '--all' in sys.argv
-	name = f'{pid}-{seed.name}'
+	tag = sys.argv[sys.argv.index('--tag') + 1] if '--tag' in sys.argv else ''
+	name = f'{pid}-{tag}{seed.name}'
 	patch = seed / 'patch.diff'
 	demo = seed / 'demo.py'
 	meta = json.loads((seed / 'meta.json').read_text()) if (seed / 'meta.json').exists() else {}
